@@ -104,4 +104,33 @@ Replay(D, rows, sel, reqs) == ReplayFrom(D, rows, sel, reqs, 1, Fresh)
 
 Intended == [s18 |-> FALSE, s19 |-> FALSE, s31 |-> FALSE]
 NoSel    == [ecu |-> "", props |-> <<>>]
+
+----------------------------------------------------------------------------
+(* Effect of a reply given as bytes (UDSResponse.parse_dynamic + the isinstance
+   tests of update_state, written on the wire format of ISO 14229-1):
+     50 ss ..        positive DiagnosticSessionControl, session ss
+     62 F1 86 vv..   positive ReadDataByIdentifier of ActiveDiagnosticSession
+     67 tt ..        positive SecurityAccess; tt even = key accepted, level tt-1
+     51 ..           positive ECUReset *)
+RECURSIVE BEFrom(_, _, _)
+BEFrom(b, k, acc) == IF k > Len(b) THEN acc ELSE BEFrom(b, k + 1, acc * 256 + b[k])
+EffBytes(b) ==
+  IF Len(b) < 2 THEN NilEff
+  ELSE CASE b[1] = 80  -> Eff("dsc", b[2])
+         [] b[1] = 98 /\ Len(b) >= 4 /\ b[2] = 241 /\ b[3] = 134
+                       -> Eff("sread", IF Len(b) <= 6 THEN BEFrom(b, 4, 0) ELSE -1)
+         [] b[1] = 103 -> IF b[2] % 2 = 0 THEN Eff("key", b[2] - 1) ELSE NilEff
+         [] b[1] = 81  -> Eff("reset", 0)
+         [] OTHER      -> NilEff
+
+(* the deviations in the order in which an observed replay is explained *)
+Dv(a, b, c) == [s18 |-> a, s19 |-> b, s31 |-> c]
+Devs == << [n |-> "intended",    d |-> Dv(FALSE, FALSE, FALSE)],
+           [n |-> "S18",         d |-> Dv(TRUE,  FALSE, FALSE)],
+           [n |-> "S19",         d |-> Dv(FALSE, TRUE,  FALSE)],
+           [n |-> "S31",         d |-> Dv(FALSE, FALSE, TRUE)],
+           [n |-> "S18+S19",     d |-> Dv(TRUE,  TRUE,  FALSE)],
+           [n |-> "S18+S31",     d |-> Dv(TRUE,  FALSE, TRUE)],
+           [n |-> "S19+S31",     d |-> Dv(FALSE, TRUE,  TRUE)],
+           [n |-> "S18+S19+S31", d |-> Dv(TRUE,  TRUE,  TRUE)] >>
 =============================================================================
